@@ -28,6 +28,16 @@ def run(ctx, replay):
     # profiles: the Report.tla catalogue (shared with C04) plus random ones
     cases = os.path.join(ctx.scratch, "cases.ndjson")
     ctx.tlc("Report", "MCReport.cfg", consts={"Tier": "quick", "Emit": True}, emit_to=cases, timeout=900, name="GenReportCases")
+    # the comparison profiles of Trim.tla (samples labelled pprof::base) also go through the real trimmed reports,
+    # in the traced run: the harness takes each such profile once
+    with open(kept) as f, open(cases, "a") as out:
+        n_base = 0
+        for line in f:
+            if "pprof::base" in line:
+                out.write(line)
+                n_base += 1
+    if n_base == 0:
+        raise vcheck.Infra("Trim.tla emitted no comparison profile")
     trace = os.path.join(ctx.scratch, "trace.ndjson")
     ctx.harness(binary, cases=cases, trace=trace, n=1500 if thorough else 300)
     vcheck.sharded_trace(ctx, "TraceTrim", "TraceTrim.cfg", trace, trace + ".in", check="trace-trim",
